@@ -184,5 +184,9 @@ TInit == /\ Init
          /\ (Opaque /\ lineSearch => Assert(FALSE, "opaque runs with line search are not supported"))
 TNext == Proper \/ Judge \/ Stuck
 TSpec == TInit /\ [][TNext]_tvars
+(* the same without the (twice as expensive) ~ENABLED test: a run that is not accepted simply gets *)
+(* no verdict; the harness re-validates exactly those runs under TSpec to obtain the "fail" verdict  *)
+(* with its place.                                                                                   *)
+TSpecFast == TInit /\ [][Proper \/ Judge]_tvars
 Done == TLCGet("stats").distinct >= Len(Trace)
 =============================================================================
